@@ -1,11 +1,11 @@
-\* C17 thorough (1): every goroutine may run any of the six core operations
+\* C17 thorough (1): map writer and entry user may run any of the six core operations (x<=2), maintenance any one
 SPECIFICATION Spec
 CONSTANTS
   Gor = {"g1", "g2", "g3"}
   Nobody = Nobody
   Ids = {"i1", "i2"}
   MaxOps = 2
-  MaxOpsOf <- LimitsAll
+  MaxOpsOf <- LimitsQuick
   MaxVer = 1
   OpsOf <- RolesCore
   InitKinds = {"dead"}
